@@ -2,15 +2,17 @@
 use crate::core::Driver;
 
 pub mod balance;
+pub mod c08;
 pub mod c09;
 pub mod c15;
 pub mod c19;
 pub mod toy;
 
-pub const ALL: &[&str] = &["C09", "C15", "C19", "TOY"];
+pub const ALL: &[&str] = &["C08", "C09", "C15", "C19", "TOY"];
 
 pub fn registry(id: &str) -> Box<dyn Driver> {
     match id {
+        "C08" => c08::driver(),
         "C09" => c09::driver(),
         "C15" => c15::driver(),
         "C19" => c19::driver(),
